@@ -124,6 +124,43 @@ def io_snapshots():
     return res
 
 
+def plain_userdata_cases(run):
+    """Plain hwloc_export_obj_userdata() over the XML-special and whitespace characters: each one alone, embedded, leading and
+    trailing, on the root, an inner object and a leaf; then mixed strings of length 0..100.  Enumerated, not sampled; the caller
+    runs every case under all four backend pairings, buffer and file."""
+    rng = run.rng
+    quick = run.tier == "quick"
+    cfg = ["filter all 0", "flags 8", "src synthetic package:2 core:2 pu:2"]
+    ROOT, INNER, LEAF = 0, 1, 3        # DFS positions of Machine, Package, PU in that topology
+    out = []
+    specials = [(34, "quot"), (62, "gt"), (9, "tab"), (10, "nl"), (13, "cr"), (60, "lt"), (38, "amp"), (39, "apos"), (32, "space")]
+    for c, nm in specials:
+        ch = bytes([c])
+        out.append(Case("udplain:%s:embedded" % nm, "udplain", cfg,
+                        ["ann ud %d 0 %s %s" % (ROOT, G.hx(b"r" + ch), G.hx(b"a" + ch + b"b")),
+                         "ann ud %d 0 - %s" % (INNER, G.hx(b"x" + ch + ch + b"y" + ch + b"z")),
+                         "ann ud %d 0 %s %s" % (LEAF, G.hx(b"leaf"), G.hx(b"p" + ch + b"q"))], ["udplain"]))
+        out.append(Case("udplain:%s:edges" % nm, "udplain", cfg,
+                        ["ann ud %d 0 - %s" % (ROOT, G.hx(ch + b"lead")),
+                         "ann ud %d 0 %s %s" % (INNER, G.hx(b"n"), G.hx(b"trail" + ch)),
+                         "ann ud %d 0 - %s" % (LEAF, G.hx(ch + b"both" + ch))], ["udplain"]))
+        out.append(Case("udplain:%s:alone" % nm, "udplain", cfg,
+                        ["ann ud %d 0 - %s" % (LEAF, G.hx(ch))], ["udplain"]))
+    alphabet = b"\"><&'\t\n\r  abcxyz;#0123lgtampquo"
+    nmixed = 24 if quick else 400
+    for i in range(nmixed):
+        ln = [0, 1, 2, 3, 99, 100][i] if i < 6 else rng.randint(0, 100)
+        mode = i % 4
+        pool = alphabet if mode == 0 else b"\">\t\n abc'" if mode == 1 else b"\"'\t\n >xyz" if mode == 2 else b"abc xyz\t\n"
+        data = bytes(rng.choice(pool) for _ in range(ln))
+        if mode == 3 and ln > 2:
+            data = b" " + data[1:-1] + b"\n"            # leading / trailing whitespace around text
+        k = [ROOT, INNER, LEAF][i % 3]
+        anns = ["ann ud %d 0 %s %s" % (k, G.hx(rng.choice([None, b"nm", b"a b", b"q\"<&>"]) or None) if rng.random() < 0.6 else "-", G.hx(data))]
+        out.append(Case("udplain:mixed%d:len%d" % (i, ln), "udplain", cfg, anns, ["udplain"]))
+    return out
+
+
 def snapshot_cases(run, scratch):
     rng = run.rng
     quick = run.tier == "quick"
@@ -329,23 +366,30 @@ def crash_key(r):
     return (r["X"] or "none").replace(" ", "_")
 
 
+def content_classes(data):
+    """Classes of XML-special / whitespace characters in one plain userdata buffer (the key of a finding names them)."""
+    cls = set()
+    for ch, nm in ((b"<", "lt"), (b"&", "amp"), (b">", "gt"), (b"\r", "cr"), (b'"', "quot"), (b"\t", "tab"), (b"\n", "nl")):
+        if ch in data:
+            cls.add(nm)
+    if b"]]>" in data:
+        cls.add("cdend")
+    if data and not data.strip(b" \t\n\r"):
+        cls.add("blank")
+    return cls
+
+
 def markup_class(exp_ud):
-    """Plain (not base64) userdata records whose content needs XML escaping: classes of characters present."""
+    """Union over the plain (not base64) userdata records of a case."""
     cls = set()
     for gp, name, ln, data, b64 in exp_ud:
-        if b64 == "1":
-            continue
-        if b"<" in data:
-            cls.add("lt")
-        if b"&" in data:
-            cls.add("amp")
-        if b">" in data:
-            cls.add("gt")
-        if b"\r" in data:
-            cls.add("cr")
-        if data and not data.strip(b" \t\n\r"):
-            cls.add("blank")
+        if b64 != "1":
+            cls |= content_classes(data)
     return cls
+
+
+def cls_tag(cls):
+    return "+".join(sorted(cls)) if cls else "none"
 
 
 def judge_rt(r, ver, flags):
@@ -380,12 +424,8 @@ def judge_rt(r, ver, flags):
     for b in bad:
         v.add("userdata-export-rc", b)
     if not r["reload"] or "rc=0" not in r["reload"]:
-        if False:
-            pass
-        elif mk - {"blank"}:
-            v.add("reload-failed:userdata-plain-markup", "hwloc could not load its own export (%s) with plain userdata containing %s" % (r["reload"], "/".join(sorted(mk))))
-        elif mk:
-            v.add("reload-failed:userdata-plain-blank", "hwloc could not load its own export (%s) with plain userdata made of blanks only" % r["reload"])
+        if mk:
+            v.add("reload-failed:userdata-plain:" + cls_tag(mk), "hwloc could not load its own export (%s) with plain userdata containing %s" % (r["reload"], "/".join(sorted(mk))))
         else:
             v.add("reload-failed", "hwloc could not load its own export: %s" % r["reload"])
         return v
@@ -397,14 +437,14 @@ def judge_rt(r, ver, flags):
         d = kv(l)
         got.append((d["gp"], hexbytes(d["name"]), int(d["len"]), hexbytes(d["bytes"]), d["nul"]))
     if len(got) != len(exp_ud):
-        v.add("userdata-count" + (":plain-blank" if "blank" in mk else ""), "import callback called %d times, export delivered %d records" % (len(got), len(exp_ud)))
+        v.add("userdata-count" + (":plain:" + cls_tag(mk) if mk else ""), "import callback called %d times, export delivered %d records" % (len(got), len(exp_ud)))
     for e, g in zip(exp_ud, got):
         if e[0] != g[0] and ver == "v3":
             v.add("userdata-object", "userdata delivered to object gp=%s instead of gp=%s" % (g[0], e[0]))
         if e[1] != g[1]:
             v.add("userdata-name", "userdata name %r imported as %r" % (e[1], g[1]))
         if e[2] != g[2] or e[3] != g[3]:
-            v.add("userdata-bytes:" + ("plain-cr" if e[4] != "1" and b"\r" in e[3] and e[3].replace(b"\r\n", b"\n").replace(b"\r", b"\n") == g[3] else "base64" if e[4] == "1" else "plain"), "userdata (len %d, %s) imported as (len %d, %s)" % (e[2], e[3][:40].hex(), g[2], (g[3] or b"")[:40].hex()))
+            v.add("userdata-bytes:" + ("base64" if e[4] == "1" else "plain:" + cls_tag(content_classes(e[3]))), "userdata (len %d, %s) imported as (len %d, %s)" % (e[2], e[3][:40].hex(), g[2], (g[3] or b"")[:40].hex()))
         if g[4] != "1":
             v.add("userdata-no-nul:" + ("base64" if e[4] == "1" else "plain"), "import callback buffer is not followed by a NUL byte (documented in export.h)")
     # ---- dumps ----
@@ -516,7 +556,7 @@ def judge_rt(r, ver, flags):
             strip = lambda b: re.sub(rb"[ \t]*<support [^>]*/>\n", b"", b)
             ok = strip(x1b) == strip(x2b)
         if not ok:
-            v.add("second-export-differs" + (":after-userdata-loss" if any(k.startswith("userdata-bytes:plain") or k.startswith("userdata-count") for k, _ in v.items)
+            v.add("second-export-differs" + (":after-userdata-loss" if any(k.startswith("userdata-bytes:plain") or k.startswith("userdata-count:plain") for k, _ in v.items)
                                              else ":after-ccs-normalisation" if any(k.startswith("obj-field:ccs:memory-child") for k, _ in v.items) else ""), "exporting the reloaded topology does not give the same bytes: %s" % first_diff(r))
     return v
 
@@ -729,9 +769,13 @@ def check(run, replay=None):
                 anns = [l for l in body if l.startswith("ann ")]
                 jobs.append((Case("replay", "replay", cfg, anns), (p.group(1), p.group(2)), "buffer" if mode == "buffer" else "file", ver))
             else:
-                cases = make_cases(run, scratch) + snapshot_cases(run, scratch)
+                cases = make_cases(run, scratch) + snapshot_cases(run, scratch) + plain_userdata_cases(run)
                 for ci, c in enumerate(cases):
-                    if quick and c.kind == "linuxio":
+                    if c.kind == "udplain":
+                        for p in PAIRINGS:
+                            for mode in ("buffer", "file"):
+                                jobs.append((c, p, mode, "v3"))
+                    elif quick and c.kind == "linuxio":
                         jobs.append((c, PAIRINGS[ci % 4], "buffer" if ci % 3 else "file", "v3"))
                     elif quick and c.kind != "corpus":
                         ps = rng.sample(PAIRINGS, 2)
